@@ -11,7 +11,7 @@ PROP_MODULES = {
     'C04': ['obligations.cache_ops'],
     'C08': ['obligations.cache_ops'],
     'C09': ['obligations.cache_ops'],
-    'C10': ['obligations.queue_ops', 'obligations.e2_jobs'],
+    'C10': ['obligations.queue_ops', 'obligations.e2_jobs', 'obligations.persist_ops'],
     'C01': ['obligations.e2_jobs', 'obligations.cache_ops', 'obligations.queue_ops'],
     'C02': ['obligations.e2_jobs', 'obligations.cache_ops'],
     'C13': ['obligations.e2_jobs', 'obligations.fanout_ops'],
@@ -24,13 +24,13 @@ PROP_MODULES = {
     'C11': ['obligations.persist_ops'],
     'C12': ['obligations.persist_ops'],
     'C05': ['obligations.conc_ops', 'obligations.block_ops', 'obligations.cache_ops', 'obligations.persist_ops', 'obligations.recipes_ops'],
-    'C07': ['obligations.cache_ops', 'obligations.queue_ops'],
+    'C07': ['obligations.cache_ops', 'obligations.queue_ops', 'obligations.persist_ops'],
     'C14': ['obligations.cache_ops', 'obligations.queue_ops', 'obligations.fanout_ops'],
     'C16': ['obligations.e2_jobs', 'obligations.memo_ops'],
 }
 for _p in ('C04', 'C08'):
     PROP_MODULES[_p] = PROP_MODULES[_p] + ['obligations.queue_ops']
-PROP_MODULES['C08'] = PROP_MODULES['C08'] + ['obligations.block_ops']
+PROP_MODULES['C08'] = PROP_MODULES['C08'] + ['obligations.block_ops', 'obligations.e2_jobs']
 
 
 def jobs_for(prop, tier):
